@@ -1,31 +1,29 @@
 #!/bin/bash
-# Zero-false-alarm trials: applies each behaviour-preserving (or property-allowed) change in /verif/benign to a private
-# copy of /repo and runs the named checks; every check must exit 0.
-# usage: tools/try_benign.sh            (all)   |   tools/try_benign.sh name check...
+# Zero-false-alarm trials: applies each behaviour-preserving (or property-allowed) change in /verif/benign (index.json:
+# what it is, which checks to run) to a private copy of /repo and runs the named checks; every check must exit 0.
+# Results are written to /verif/benign/results.json (read by tools/mkdesign.py).
+# usage: tools/try_benign.sh            (all)   |   tools/try_benign.sh name [check...]
 set -u
-declare -A MAP=(
- [router_single_bucket]="C01 C02 C03 C04 C08"
- [cors_vary_always]="C19"
- [cache_faster_clock]="C14"
- [limiter_header_order]="C13"
- [idempotency_extra_copy]="C17"
- [proxy_check_order]="C10"
- [encryptcookie_blank_with_empty_string]="C20"
- [client_cancel_always_waits]="C18"
-)
 export GOFLAGS=-mod=mod GOPROXY=off GOSUMDB=off GOTOOLCHAIN=local GOCACHE=/verif/.cache/go-build
-names=("${!MAP[@]}")
-[ $# -gt 0 ] && names=("$1")
-for n in "${names[@]}"; do
+IDX=/verif/benign/index.json
+RES=/verif/benign/results.json
+[ -f $RES ] || echo '{}' > $RES
+names=$(jq -r 'keys[]' $IDX)
+[ $# -gt 0 ] && names="$1"
+for n in $names; do
   T=/tmp/benigntry_$n
   rm -rf "$T"; cp -r /repo "$T"; rm -rf "$T/.git/worktrees"
-  (cd "$T" && git apply /verif/benign/$n.diff && go build ./...) || { echo "BENIGN $n: does not apply/build"; continue; }
-  checks=${MAP[$n]}
+  (cd "$T" && git apply /verif/benign/$n.diff && go build ./...) || { echo "BENIGN $n: does not apply/build"; rm -rf "$T"; continue; }
+  checks=$(jq -r --arg n "$n" '.[$n].checks[]' $IDX)
   [ $# -gt 1 ] && checks="${*:2}"
+  result=""
   for c in $checks; do
     (cd /verif && VERIF_REPO=$T ./check $c quick > /tmp/benigntry_${n}_$c.out 2>&1); rc=$?
-    echo "BENIGN $n check $c: rc=$rc $(tail -1 /tmp/benigntry_${n}_$c.out)"
+    nv=$(grep -c '^VIOLATION' /tmp/benigntry_${n}_$c.out)
+    echo "BENIGN $n check $c: rc=$rc violation_lines=$nv $(tail -1 /tmp/benigntry_${n}_$c.out)"
+    result="$result$c rc=$rc; "
   done
+  jq --arg n "$n" --arg r "$result" --slurpfile idx $IDX '.[$n] = {what: $idx[0][$n].what, checks: $idx[0][$n].checks, result: $r}' $RES > $RES.tmp && mv $RES.tmp $RES
   rm -rf "$T"
 done
 rm -rf /verif/.build/mod__tmp_benigntry_*
